@@ -1,7 +1,7 @@
 """C02 - each consumer gets every upstream message at most once, in order, unaltered."""
 
 from world import oracles
-from .c01 import union_profiles, log_probes
+from .c01 import union_profiles, log_probes, feature_probes
 from .mqspec import MQSpec
 
 
@@ -17,4 +17,6 @@ class Spec(MQSpec):
         return oracles.check_c02(world)
 
     def probes(self, world):
-        return log_probes(world)
+        p = log_probes(world)
+        p.update(feature_probes(world))
+        return p
